@@ -79,13 +79,8 @@ Definition names_ok (sd : sdomain) : Prop :=
   names_not_keywords (map fst (sd_preds sd)) = true /\ names_not_keywords (map fst (sd_funcs sd)) = true /\
   ~ In ":private" (map fst (sd_preds sd)).
 
-(* ---------- the property at full strength (both are false of the code: findings D45, D47) ---------- *)
-Definition vocabulary_statement : Prop :=
-  forall num e m sd,
-    parse_domain num e = Ok m -> read_domain num e = Some sd ->
-    sections_once e -> ~ In ":private" (map fst (sd_preds sd)) ->
-    model_vocabulary m = spec_vocabulary sd.
-
+(* ---------- the second half at full strength: false where the library stores something it cannot evaluate
+   ('(= 1 1.0)'); such an action raises when it is grounded (Proofs/C01_Witness.v) ---------- *)
 Definition faithful_statement : Prop :=
   forall num e m sd n ma,
     parse_domain num e = Ok m -> read_domain num e = Some sd -> sections_once e -> names_ok sd ->
